@@ -282,3 +282,20 @@ def entry_name(scn):
 
 def V(rule, sig, detail):
     return {"rule": rule, "sig": sig, "detail": detail}
+
+
+def final_failure_candidates(infos):
+    """Acceptable descriptions of "the final failure" of a run.
+
+    The loop polls abort_if right after an attempt ends; whether that attempt's
+    failure is recorded before or after that poll is an implementation choice the
+    statements do not fix.  So when the last failed attempt was immediately
+    followed by an abort poll answering True, both "that attempt" (if its class is
+    observable) and "the previous recorded failure / none" are accepted."""
+    rec = [i for i in infos if i.recorded]
+    cands = [rec[-1] if rec else None]
+    if infos:
+        last = infos[-1]
+        if last.a.kind in ("exc", "res") and not last.recorded and last.polls and last.polls[0]["ans"]:
+            cands.append(last)   # described as the final failure after all
+    return cands
